@@ -194,10 +194,17 @@ def h3_h4_interfaces(chk, rng, tier):
         sink.append((fname, numpy.asarray(value, dtype=object).copy()))
     vb, pb = calc.volume_based_result, calc.pressure_based_result
     ck = [c_(k[1:]) for k in keys[:4]]
+    # a second calculator over the very same symbolic data: read in the opposite order, so that an order dependence cannot hide behind
+    # state that the first series of reads has already left in the first object
+    calc_b = object.__new__(cc.Calculator)
+    calc_b.__dict__.update({k: v for k, v in calc.__dict__.items() if k not in ("volume_based_result", "pressure_based_result", "_compliances")})
+    calc_b.__dict__["volume_based_result"] = cc.CijVolumeBaseInterface(calc_b)
+    calc_b.__dict__["pressure_based_result"] = cc.CijPressureBaseInterface(calc_b)
 
-    def read_all(order):
+    def read_all(order, which=None):
         out = {}
-        for base, tag in ((vb, "tv"), (pb, "tp")):
+        vb_, pb_ = (which.volume_based_result, which.pressure_based_result) if which is not None else (vb, pb)
+        for base, tag in ((vb_, "tv"), (pb_, "tp")):
             seq = []
             for kind in order:
                 mod = base.modulus_adiabatic if kind == "adi" else base.modulus_isothermal
@@ -205,7 +212,7 @@ def h3_h4_interfaces(chk, rng, tier):
             seq += [((tag, n), lambda b=base, n=n: getattr(b, n)) for n in QUANT]
             seq += [((tag, "c11s"), lambda b=base: b.c11s), ((tag, "c11t"), lambda b=base: b.c11t), ((tag, "s11"), lambda b=base: b.s11)]
             if order[0] == "iso":
-                seq = list(reversed(seq))
+                seq = seq[len(ck) * 2:] + seq[:len(ck) * 2]      # scalar quantities first, then isothermal before adiabatic
             for key, f in seq + seq:            # everything twice
                 val = numpy.array(f(), dtype=object).copy()
                 out.setdefault(key, []).append(val)
@@ -217,8 +224,9 @@ def h3_h4_interfaces(chk, rng, tier):
         def scenario():
             with patched((cc, {"numpy": proxy, "v2p": v2p, "save_x_tv": save_tv, "save_x_tp": save_tp})):
                 calc._calculate_compliances()
+                calc_b._calculate_compliances()
                 r1 = read_all(["adi", "iso"])
-                r2 = read_all(["iso", "adi"])
+                r2 = read_all(["iso", "adi"], which=calc_b)
                 # H4: the writer twice and with the keyword list in another order
                 writes = []
                 for cfg in ({"pressure_base": ["cij", "cij_t", "bm_VRH", "v"], "volume_base": ["cij_t", "cij", "G_R", "p"]},
